@@ -451,7 +451,19 @@ int64_t cmb_process_wait_process(struct cmb_process *awaited)
         /* Yield to the dispatcher and collect the return signal value */
         const int64_t sig = (int64_t)cmi_coroutine_yield(NULL);
 
-        /* Possibly much later */
+        /*
+         * Possibly much later. The wakeup from the awaited process removes our
+         * registration, as does an interrupt. If something else woke us (a
+         * timer, a resume) we are still registered and must leave properly,
+         * or the awaited process will wake us out of some later, unrelated wait.
+         */
+        if (cmi_process_remove_awaitable(me, CMI_PROCESS_AWAITABLE_PROCESS, awaited)) {
+            if (!cmi_process_remove_waiter(awaited, me)) {
+                /* It ended in this same instant, its wakeup is already on its way */
+                (void)cmb_event_pattern_cancel(wakeup_event_process, me, CMB_ANY_OBJECT);
+            }
+        }
+
         return sig;
     }
 }
@@ -483,7 +495,14 @@ int64_t cmb_process_wait_event(const uint64_t ev_handle)
     /* Yield to the dispatcher and collect the return signal value */
     const int64_t ret = (int64_t)cmi_coroutine_yield(NULL);
 
-    /* Possibly much later */
+    /*
+     * Possibly much later. If woken by something else than the event itself
+     * (or an interrupt, which cleans up), we are still registered: leave.
+     */
+    if (cmi_process_remove_awaitable(me, CMI_PROCESS_AWAITABLE_EVENT, (void *)ev_handle)) {
+        (void)cmi_event_remove_waiter(ev_handle, me);
+    }
+
     return ret;
 }
 
@@ -538,8 +557,8 @@ bool cmi_process_remove_waiter(struct cmb_process *pp,
     cmb_assert_debug(waiter != NULL);
 
     struct cmi_slist_head *waiters = &(pp->waiters);
-    cmb_assert_debug(!cmi_slist_is_empty(waiters));
 
+    /* May be empty, if pp has ended and already scheduled wakeups for its waiters */
     while (waiters->next != NULL) {
         struct cmi_process_waiter *pw = cmi_container_of(waiters->next,
                                                   struct cmi_process_waiter,
